@@ -34,8 +34,11 @@ theorem findBidiKids_val (c : Ctx) (ks : List Node) : ∀ (d : Nat), findBidiKid
   | case6 ks kind s hk v hv => intro d h; exact firstStrong_val c s d (by rw [hv, h])
   | case7 ks kind s hk hn ih => exact ih
 
-theorem findBidi_val (c : Ctx) (l : Loc) (d : Nat) (h : findBidi c l = some d) : IsDirVal d :=
-  findBidiKids_val c _ d h
+theorem findBidi_val (c : Ctx) (l : Loc) (d : Nat) (h : findBidi c l = some d) : IsDirVal d := by
+  unfold findBidi at h
+  split at h
+  · cases h
+  · exact findBidiKids_val c _ d h
 
 theorem dirOfAttr_val (v : Str) (d : Nat) (h : dirOfAttr v = some d) (h0 : d ≠ 0) : IsDirVal d := by
   unfold dirOfAttr at h
